@@ -19,6 +19,25 @@ from .env import VERIF_DIR
 MAX_BUCKETS = 4  # distinct failure labels enumerated per shard before giving up
 
 
+def _structure_labels(case):
+    """Exact-structure regimes drawn by the shared generators (gen._exact_structure and friends) are recorded on the parameter
+    dicts themselves; surface them in the label histogram of every check."""
+    out = []
+
+    def walk(v):
+        if isinstance(v, dict):
+            if v.get("_structure"):
+                out.append(f"structure={v['_structure']}")
+            for w in v.values():
+                walk(w)
+        elif isinstance(v, (list, tuple)) and v and isinstance(v[0], dict):
+            for w in v:
+                walk(w)
+
+    walk(case)
+    return sorted(set(out))
+
+
 def _seed_int(*parts):
     h = hashlib.sha256("|".join(str(p) for p in parts).encode()).digest()
     return int.from_bytes(h[:8], "big") & ((1 << 62) - 1)
@@ -102,7 +121,7 @@ def run_shard(args):
                     nontriv.add(_case_hash(cj))
                     if len(out["samples"]) < 2:
                         out["samples"].append(_trim(case))
-                for l in sub.labels(case):
+                for l in list(sub.labels(case)) + _structure_labels(case):
                     labels[l] += 1
                 bad = []
                 for f in fails:
